@@ -466,6 +466,7 @@ func init() {
 	ops["gnames.kept"] = yes
 	ops["gnames.explained"] = yes
 	ops["gnames.inferred"] = yes
+	ops["gnames.cmapfirst"] = yes
 	ops["gnames.safe"] = yes
 }
 
@@ -712,6 +713,9 @@ func gnEmit(c *Ctx, kind string, n int, nms []string, line string, nontriv, ensu
 	// a glyph that a GSUB 1.1/1.2/3.1/4.1 rule derives from glyphs named before the GSUB pass
 	// (existing or cmap names) does not end up with a numbered placeholder
 	c.Case(Direct, "gnames.inferred", line+" "+o, nontriv)
+	// missing names come from the character map before placeholders: a glyph that ends with a
+	// numbered placeholder has no cmap entry whose FromUnicode name is still free
+	c.Case(Direct, "gnames.cmapfirst", line+" "+o, nontriv)
 	if !ensure {
 		return
 	}
@@ -857,6 +861,94 @@ func gnNegDeltaFamily(c *Ctx) {
 	}
 	c.Stat("stream", "gsub1.1-negative-delta")
 	line := fmt.Sprintf("kind=%s n=%d nn=%d names=%s cmap=%s fu=%s gsub=%s", kind, n, len(nms), gnHexNames(nms), cm, strings.Join(fu, ","), strings.Join(subs, ";"))
+	if kind == "cff" && len(nms) != n {
+		return
+	}
+	if _, bad := gnFont(parseFields(line)); bad != "" {
+		c.Stat("case-rejected", bad)
+		return
+	}
+	gnEmit(c, kind, n, nms, line, true, r.Chance(1, 4))
+}
+
+// gnCmapEdgeFamily: the character map is the only naming source, and the glyphs of interest are
+// mapped from the FIRST and the LAST code point of the subtable; single-entry cmaps; code points
+// 0, 0xFFFF and 0x10FFFF (format 12).
+func gnCmapEdgeFamily(c *Ctx) {
+	r := c.Rng
+	n := r.Range(2, 9)
+	kind := Pick(r, []string{"glyf", "glyf", "cff"})
+	nms := make([]string, n)
+	if kind == "glyf" && r.Bool() {
+		nms = nil
+	} else if r.Bool() {
+		nms[0] = ".notdef"
+	}
+	cfmt := ""
+	var base, span int
+	switch r.Intn(7) {
+	case 0:
+		base, span = 0, r.Range(1, 6)
+		c.Stat("cmap-edge", "range-starts-at-code-0")
+	case 1:
+		span = r.Range(1, 6)
+		base = 0xFFFF - span + 1
+		cfmt = " cfmt=12"
+		c.Stat("cmap-edge", "range-ends-at-0xFFFF(format12)")
+	case 2:
+		span = r.Range(1, 6)
+		base = 0xFFFE - span + 1
+		c.Stat("cmap-edge", "range-ends-at-0xFFFE(format4)")
+	case 3:
+		span = r.Range(1, 6)
+		base = 0x10FFFF - span + 1
+		c.Stat("cmap-edge", "range-ends-at-0x10FFFF")
+	case 4:
+		base, span = Pick(r, []int{0x41, 0x61, 0x3B1, 0x1F600, 0, 0x10FFFF, 0xFFFF}), 1
+		if base == 0xFFFF {
+			cfmt = " cfmt=12"
+		}
+		c.Stat("cmap-edge", "single-entry")
+	default:
+		base, span = Pick(r, []int{0x41, 0x61, 0x391, 0x2190, 0x1D400}), r.Range(2, 12)
+		c.Stat("cmap-edge", "ordinary-range")
+	}
+	// first and last code always mapped, each to a glyph that nothing else maps to
+	m := map[int]int{}
+	perm := make([]int, 0, n)
+	for g := 1; g < n; g++ {
+		perm = append(perm, g)
+	}
+	for i := len(perm) - 1; i > 0; i-- {
+		j := r.Intn(i + 1)
+		perm[i], perm[j] = perm[j], perm[i]
+	}
+	m[base+span-1] = perm[0]
+	if span > 1 && len(perm) > 1 {
+		m[base] = perm[1]
+	}
+	for i := 2; i < len(perm) && i < span; i++ {
+		if r.Chance(2, 3) {
+			code := base + r.Range(1, span-1)
+			if _, ok := m[code]; !ok || (code != base && code != base+span-1) {
+				if code != base && code != base+span-1 {
+					m[code] = perm[i]
+				}
+			}
+		}
+	}
+	keys := make([]int, 0, len(m))
+	for k := range m {
+		keys = append(keys, k)
+	}
+	sort.Ints(keys)
+	p, q := make([]string, len(keys)), make([]string, len(keys))
+	for i, k := range keys {
+		p[i] = fmt.Sprintf("%d:%d", k, m[k])
+		q[i] = fmt.Sprintf("%d:%s", k, hex.EncodeToString([]byte(names.FromUnicode(string(rune(k))))))
+	}
+	c.Stat("stream", "cmap-first-and-last-code")
+	line := fmt.Sprintf("kind=%s n=%d nn=%d names=%s cmap=%s%s fu=%s gsub=", kind, n, len(nms), gnHexNames(nms), strings.Join(p, ","), cfmt, strings.Join(q, ","))
 	if kind == "cff" && len(nms) != n {
 		return
 	}
@@ -1202,12 +1294,17 @@ func areaGNames(c *Ctx) {
 	gnEmit(c, "cff", 8, make([]string, 8), "kind=cff n=8 nn=8 names=,,,,,,, cmap=102:1,105:2,108:3 fu=102:66,105:69,108:6c gsub=lg:1-0:1,4>5/2>6/3>7|", true, true)
 	// GSUB 1.1 with delta -2 (variants stored before their bases) as the only source of names
 	gnEmit(c, "glyf", 6, nil, "kind=glyf n=6 nn=0 names= cmap=97:3,98:4,99:5 fu=97:61,98:62,99:63 gsub=s1:65534:3,4,5", true, false)
+	// the cmap is the only naming source: a single entry; first and last code of the range
+	gnEmit(c, "glyf", 2, nil, "kind=glyf n=2 nn=0 names= cmap=65:1 fu=65:41 gsub=", true, false)
+	gnEmit(c, "glyf", 4, nil, "kind=glyf n=4 nn=0 names= cmap=65:2,66:1,67:3 fu=65:41,66:42,67:43 gsub=", true, false)
 	// MakeSimple: two glyphs with the same 16-letter text: the derived name has 31 characters
 	gnCffEmit(c, make([]string, 4), map[int]string{1: "ABCDEFGHIJKLMNOP", 2: "ABCDEFGHIJKLMNOP", 3: "A"}, true)
 	gnEmit(c, "cff", 4, []string{".notdef", "A", "B", "A"}, "kind=cff n=4 nn=4 names=2e6e6f74646566,41,42,41 cmap=65:1,66:2,67:3 fu=65:41,66:42,67:43 gsub=", true, true)
 	gnEmit(c, "cff", 4, []string{"space", "A", "B", "C"}, "kind=cff n=4 nn=4 names=7370616365,41,42,43 cmap=65:1,66:2,67:3 fu=65:41,66:42,67:43 gsub=", true, true)
 	for i := 0; i < c.N; i++ {
 		switch {
+		case i%20 == 1:
+			gnCmapEdgeFamily(c)
 		case i%20 == 3:
 			gnNegDeltaFamily(c)
 		case i%20 == 13:
